@@ -4,7 +4,8 @@ import json
 import os
 
 rows = []
-for d in sorted(glob.glob("/verif/seeded/*")):
+for d in sorted(glob.glob("/verif/seeded/*/")):
+    d = d.rstrip("/")
     m = json.load(open(os.path.join(d, "meta.json")))
     c = m.get("confirmed_by_main_session", {})
     ev = c.get("eval_lines", [])
